@@ -347,6 +347,8 @@ inductive LOp where
   | swapWith (xs : List Int) -- `l.swap tmp; tmp.to_tuple()`: exchange with a private list,
                             --                          one `data_mut()` on `l`; returns the old contents
   | addAll (d : Int)        -- `l.transform |x| x + d` one `data_mut()` held across the (pure) callback
+  | tailSnap                -- `(first, rest...)` pattern: `rest` (run_slice from 1) one `data()`
+  | initSnap                -- `(others..., last)` pattern: `others` (run_slice to -1) one `data()`
   deriving DecidableEq, Repr
 
 def LOp.isWrite : LOp → Bool
@@ -390,6 +392,8 @@ def LOp.sem : LOp → List Int → List Int × Res
   | .eqTo xs, l => (l, .bool (l == xs))
   | .swapWith xs, l => (xs, .ints l)
   | .addAll d, l => (l.map (· + d), .unit)
+  | .tailSnap, l => (l, .ints (l.drop 1))
+  | .initSnap, l => (l, .ints l.dropLast)
 
 def LOp.toOp (o : LOp) : Op (List Int) Res := { write := o.isWrite, f := o.sem }
 
